@@ -27,7 +27,7 @@ RULE = ('bases: normalised http(s) URIs with/without path, trailing slash, query
 	'{".", "..", "", "g", "a.b", "..."}, query-only, fragment-only, empty; non-trivial = result differs from both base and reference text; distinct by result')
 
 BASES = [u'http://a/b/c/d;p?q', u'http://a/b/c/d', u'http://a/b/c/', u'http://a', u'http://a/', u'https://h.example/x', u'http://a/b?x=1', u'https://u:p@h:8443/p/q/r', u'http://a/b/c/d/e/f/']
-RSEGS = [u'.', u'..', u'', u'g', u'a.b', u'...', u'h']
+RSEGS = [u'.', u'..', u'', u'g', u'a.b', u'...', u'h', u'g', u'h', u'x:', u'http:', u'a:b', u'@', u'a@b']
 RFC_EXAMPLES = [u'g:h', u'g', u'./g', u'g/', u'/g', u'//g', u'?y', u'g?y', u'#s', u'g#s', u'g?y#s', u';x', u'g;x', u'g;x?y#s', u'', u'.', u'./', u'..', u'../', u'../g', u'../..', u'../../', u'../../g',
 	u'../../../g', u'../../../../g', u'/./g', u'/../g', u'g.', u'.g', u'g..', u'..g', u'./../g', u'./g/.', u'g/./h', u'g/../h', u'g;x=1/./y', u'g;x=1/../y', u'g?y/./x', u'g#s/./x', u'http:g', u'HTTP://X/./y']
 
@@ -35,8 +35,8 @@ RFC_EXAMPLES = [u'g:h', u'g', u'./g', u'g/', u'/g', u'//g', u'?y', u'g?y', u'#s'
 def gen_ref(rng):
 	kind = rng.randrange(8)
 	segs = u'/'.join(rng.choice(RSEGS) for _ in range(rng.randrange(1, 6)))
-	q = rng.choice([u'', u'', u'?y', u'?y=1&z'])
-	f = rng.choice([u'', u'', u'#s'])
+	q = rng.choice([u'', u'', u'?y', u'?y=1&z', u'?t=12:30', u'?u=http://o/i', u'?a/b', u'?a@b'])
+	f = rng.choice([u'', u'', u'#s', u'#a:b', u'#x/y', u'#//z'])
 	if kind == 0:
 		return rng.choice([u'http', u'https', u'ftp', u'x']) + u'://' + rng.choice([u'b', u'B.c', u'u@b:81']) + u'/' + segs + q + f
 	if kind == 1:
@@ -81,7 +81,17 @@ def impl_lines(case):
 def degenerate(ref):
 	"""references whose RFC components are defined-but-empty; httoop cannot represent them"""
 	rs, ra, rp, rq, rf = rfc3986.split(ref)
+	if ra is not None and ra.rpartition('@')[2].partition(':')[0] == '':
+		return True      # an authority without a host ("//@/x", "//:80/x")
 	return rq == '' or rf == '' or ra == '' or (rs is not None and ra is None)
+
+
+def slash_before_scheme_mark(ref):
+	"""F58: a relative-path reference with "://" in a later segment ("h/http://x"): URI.parse takes everything in front
+	of the first "://" for a scheme and refuses it (pinned by tests/uri/test_uri_parsing.py::test_invalid_uri_scheme_characters[/])"""
+	r = ref.split('#')[0].split('?')[0]
+	pre, sep, _rest = r.partition('://')
+	return bool(sep) and not r.startswith('/') and '/' in pre
 
 
 def expected(base, ref):
@@ -105,7 +115,7 @@ def oracle(case):
 	try:
 		got = impl_join(base, ref)
 	except Exception as e:
-		return {'what': 'join raised %s' % exc_name(e), 'base': base, 'ref': ref, 'finding': None}
+		return {'what': 'join raised %s' % exc_name(e), 'base': base, 'ref': ref, 'finding': 'F58' if exc_name(e) == 'InvalidURI' and slash_before_scheme_mark(ref) else None}
 	def text(u):
 		try:
 			return bytes(u).decode('latin-1')
